@@ -26,6 +26,8 @@
 From Crusta Require Import Spec.AF Sat.Cnf Sat.Prog Model.Encoders Model.Graph Model.Solvers.
 From Crusta Require Import Proofs.EncSpec Proofs.SolverBasics Proofs.SolverCc Proofs.SolverThms.
 From Crusta Require Import Proofs.TopBase Proofs.TopMax Proofs.SolverTop.
+From Crusta Require Import Spec.Theory.
+From Crusta Require Proofs.Clauses.
 Open Scope prog_scope.
 
 Theorem C04_complete_witness_component_partial : forall oracle thr, 1 <= thr -> valid_oracle oracle ->
@@ -60,6 +62,53 @@ Theorem C04_certificates : forall oracle thr g F,
   end.
 Proof. exact SolverTop.top_certificates. Qed.
 
+(* ---- the sentences of the property text, one by one (Proofs/Clauses.v) ---- *)
+
+(* "When a certificate is requested, a YES to a credulous query comes with a set that contains the
+   queried argument and is an extension under the queried semantics" + "the members of a certificate
+   are arguments of the queried framework, each listed once" *)
+Theorem C04_credulous_yes_has_certificate : forall oracle thr g F,
+  valid_oracle oracle -> 1 <= thr -> view_good g F ->
+  forall s e al fuel st0 c t, supported s QDC -> enc_ok s e -> al_ok s QDC F al ->
+  run_query oracle thr fuel s QDC true e g al st0 = Done (OAcc true c) t ->
+  exists L, c = Some L /\ ext s F L /\ (exists a, In a al /\ In a L) /\ NoDup L /\ incl L (args F).
+Proof. exact Clauses.cert_credulous_yes. Qed.
+
+(* "a NO to a skeptical query comes with an extension under the queried semantics that omits the
+   argument" *)
+Theorem C04_skeptical_no_has_certificate : forall oracle thr g F,
+  valid_oracle oracle -> 1 <= thr -> view_good g F ->
+  forall s e al fuel st0 c t, supported s QDS -> enc_ok s e -> al_ok s QDS F al ->
+  run_query oracle thr fuel s QDS true e g al st0 = Done (OAcc false c) t ->
+  exists L, c = Some L /\ ext s F L /\ (forall a, In a al -> ~ In a L) /\ NoDup L /\ incl L (args F).
+Proof. exact Clauses.cert_skeptical_no. Qed.
+
+(* "a NO credulous or YES skeptical answer carries no certificate" (nor does any answer when no
+   certificate was requested) *)
+Theorem C04_no_certificate_otherwise : forall oracle thr g F,
+  valid_oracle oracle -> 1 <= thr -> view_good g F ->
+  forall s q e al fuel cert st0 b c t, q <> QSE -> supported s q -> enc_ok s e -> al_ok s q F al ->
+  run_query oracle thr fuel s q cert e g al st0 = Done (OAcc b c) t ->
+  (q = QDC /\ b = false) \/ (q = QDS /\ b = true) \/ cert = false ->
+  c = None.
+Proof. exact Clauses.cert_absent. Qed.
+
+(* "(for DC-PR a complete extension, which is a sufficient witness)": DC-PR is answered by the
+   complete solver; its certificate L is a complete extension containing a listed argument, and L
+   is contained in a preferred extension P, which therefore contains that argument: L witnesses
+   credulous acceptance under PR *)
+Theorem C04_preferred_witness : forall oracle thr g F,
+  valid_oracle oracle -> 1 <= thr -> view_good g F ->
+  forall e al fuel cert st0 b L t, enc_ok CO e -> al_ok CO QDC F al ->
+  run_query oracle thr fuel CO QDC cert e g al st0 = Done (OAcc b (Some L)) t ->
+  b = true /\ co F L /\ (exists a, In a al /\ In a L) /\
+  exists P, pr F P /\ incl L P /\ exists a, In a al /\ In a P.
+Proof. exact Clauses.cert_preferred_witness. Qed.
+
 Print Assumptions C04_complete_witness_component_partial.
 Print Assumptions C04_stable_witness_component_partial.
 Print Assumptions C04_certificates.
+Print Assumptions C04_credulous_yes_has_certificate.
+Print Assumptions C04_skeptical_no_has_certificate.
+Print Assumptions C04_no_certificate_otherwise.
+Print Assumptions C04_preferred_witness.
